@@ -47,6 +47,9 @@ class Tagger:
         return b"".join(self.vals[int(t)] for t in np.asarray(tags).ravel())
 
 
+VARIANTS = ["plain", "n_eq_dim", "empty_grid", "no_eul", "eulerian_field_io"]
+
+
 def make_registry(r, dim, real_t, variant):
     """random registry description: dict with eul fields, grids with fields (arrays filled with payload patterns)"""
     grid = tuple(int(v) for v in r.integers(2, 5, size=dim))
@@ -73,11 +76,32 @@ def make_registry(r, dim, real_t, variant):
                 fields.append((f"f{gi}{fi}", "scalar", _payload(r, N, real_t).reshape(N)))
         grids.append((f"grid{gi}" if r.random() < 0.7 else None, garr, fields))
     dx = float(r.uniform(0.01, 1.0))
-    return {"dim": dim, "grid": grid, "eul": eul, "grids": grids, "origin": r.normal(size=dim), "dx": np.full(dim, dx),
+    desc = {"dim": dim, "grid": grid, "eul": eul, "grids": grids, "origin": r.normal(size=dim), "dx": np.full(dim, dx),
             "time": float(r.uniform(0, 10)), "real_t": real_t}
+    if variant == "eulerian_field_io":
+        # written through the convenience class EulerianFieldIO (position field in x-y-z component order, lower corners that
+        # differ between the axes), read back through the base class with the origin given in z-y-x (array-axis) order
+        if not eul:
+            eul.append(("w", "scalar", _payload(r, int(np.prod(grid)), real_t).reshape(grid)))
+        corner_xyz = float(r.uniform(-2, 2)) + r.permutation(np.array([0.0, 0.7, 1.9])[:dim])
+        pos = np.zeros((dim,) + grid, dtype=real_t)
+        for c in range(dim):          # component c (0 = x) varies along array axis dim-1-c
+            ax = dim - 1 - c
+            sh = [1] * dim; sh[ax] = grid[ax]
+            pos[c] = (corner_xyz[c] + dx * np.arange(grid[ax])).astype(real_t).reshape(sh)
+        first = (0,) * dim
+        second_x = (0,) * (dim - 1) + (1,)
+        desc.update(grids=[], via="EulerianFieldIO", pos=pos, corner_xyz=[float(v) for v in corner_xyz],
+                    origin=np.array([pos[(dim - 1 - a,) + first] for a in range(dim)], dtype=np.float64),
+                    dx=np.full(dim, np.float64(pos[(0,) + second_x] - pos[(0,) + first])))
+    return desc
 
 
 def build_io(desc, fresh=False):
+    if desc.get("via") == "EulerianFieldIO" and not fresh:
+        arrays = {("eul", name): arr.copy() for name, kind, arr in desc["eul"]}
+        io = spu.EulerianFieldIO(position_field=desc["pos"].copy(), eulerian_fields_dict={name: arrays[("eul", name)] for name, _, _ in desc["eul"]})
+        return io, arrays
     io = spu.IO(dim=desc["dim"], real_dtype=desc["real_t"])
     arrays = {}
     if desc["eul"] or desc.get("define_eul", True):
@@ -105,8 +129,15 @@ def build_io(desc, fresh=False):
 def model_request(desc, tagger):
     """lines describing the registry with tagged arrays"""
     dim = desc["dim"]
-    L = [f"reg {dim} 1 {dim} " + " ".join(str(n) for n in desc["grid"]),
-         f"params {dim} " + " ".join(harness.fstr(v) for v in list(desc["origin"]) + list(desc["dx"]) + list(desc["grid"]))]
+    L = [f"reg {dim} 1 {dim} " + " ".join(str(n) for n in desc["grid"])]
+    if desc.get("via"):
+        # the model derives the registry parameters the way EulerianFieldIO does (Model.IO.eulerianFieldIOParams) from the
+        # lower corner of the position field given in x-y-z order
+        first = (0,) * dim
+        corner = [desc["pos"][(c,) + first] for c in range(dim)]
+        L.append(f"params-from-corner {dim} " + " ".join(harness.fstr(v) for v in corner + [desc["dx"][0]] + list(desc["grid"])))
+    else:
+        L.append(f"params {dim} " + " ".join(harness.fstr(v) for v in list(desc["origin"]) + list(desc["dx"]) + list(desc["grid"])))
     tags = {}
 
     def arr(a):
@@ -164,8 +195,54 @@ def parse_arr(toks):
     return np.array([int(x) for x in toks[1 + rank:]], dtype=np.int64).reshape(shape)
 
 
+def _malformed_case(kind, i, r, tmp, path, file_ds, desc, variant, mal_reqs, mal_ctx):
+    """one (possibly malformed) copy of the implementation's file: real `load` into a fresh base-class registry, and the
+    request that makes the model load the same file"""
+    bad = os.path.join(tmp, f"bad{i}{kind}.h5")
+    shutil.copy(path, bad)
+    victim = None
+    with h5py.File(bad, "a") as f:
+        if kind == "delete_dataset":
+            victim = sorted(file_ds)[int(r.integers(0, len(file_ds)))]
+            del f[victim]
+        elif kind == "origin":
+            f["Eulerian"]["Parameters"].attrs["origin"] = np.array(desc["origin"]) + 0.37
+        elif kind == "origin_reversed":
+            f["Eulerian"]["Parameters"].attrs["origin"] = np.array(desc["origin"])[::-1].copy()
+        elif kind == "dx":
+            f["Eulerian"]["Parameters"].attrs["dx"] = np.array(desc["dx"]) * 1.5
+        elif kind == "grid_size":
+            f["Eulerian"]["Parameters"].attrs["grid_size"] = np.array(desc["grid"]) + 1
+        elif kind == "param_length":
+            f["Eulerian"]["Parameters"].attrs["origin"] = np.zeros(5)
+    io3, _ = build_io(desc, fresh=True)
+    raised = None
+    try:
+        io3.load(bad)
+    except Exception as e:  # noqa: BLE001
+        raised = type(e).__name__
+    # model: same registry (fresh), file = real (malformed) file re-tagged
+    tg = Tagger()
+    L, _ = model_request(desc, tg)
+    fds, _, fpar = dump_h5(bad)
+    for pth, a in fds.items():
+        t = tg.tag(a)
+        L.append(f"file-ds {pth} {a.ndim} " + " ".join(str(s) for s in a.shape) + " " + " ".join(str(int(x)) for x in t.ravel()))
+    if fpar is None:
+        L.append("file-noparams")
+    else:
+        k = max(len(fpar[0]), len(fpar[1]), len(fpar[2]))
+        if len(fpar[0]) != len(fpar[1]) or len(fpar[1]) != len(fpar[2]):
+            # lengths differ: send as-is padded — the model's `close` refuses different lengths
+            L.append("file-params " + str(len(fpar[1])) + " " + " ".join(harness.fstr(v) for v in [9e9] * len(fpar[1]) + list(fpar[1]) + list(fpar[2])))
+        else:
+            L.append(f"file-params {k} " + " ".join(harness.fstr(v) for v in list(fpar[0]) + list(fpar[1]) + list(fpar[2])))
+    mal_reqs.append("\n".join(L + ["load"]) + "\n")
+    mal_ctx.append((kind, victim, raised, variant, tg, fds, desc))
+
+
 def run(seed=0, tier="quick"):
-    n = 8 if tier == "quick" else 40
+    n = 10 if tier == "quick" else 40
     tmp = tempfile.mkdtemp(prefix="iocorr", dir=os.path.join(harness.ROOT, ".cache"))
     res = {"ok": True, "cases": 0, "samples": [], "name": "Model/IO vs sopht.utils.IO (save layout, load, malformed files)",
            "malformed": {}, "variants": {}}
@@ -175,7 +252,7 @@ def run(seed=0, tier="quick"):
             r = impl.rng(seed, "io", i)
             dim = 2 + i % 2
             real_t = [np.float64, np.float32][(i // 2) % 2]
-            variant = ["plain", "n_eq_dim", "empty_grid", "no_eul"][i % 4]
+            variant = VARIANTS[i % len(VARIANTS)]
             desc = make_registry(r, dim, real_t, variant)
             res["variants"][variant] = res["variants"].get(variant, 0) + 1
             tagger = Tagger()
@@ -241,53 +318,26 @@ def run(seed=0, tier="quick"):
                 kinds += ["origin", "dx", "grid_size", "param_length"]
             if not kinds:
                 continue
-            kind = kinds[0] if kinds[0] == "good_file" else kinds[int(r.integers(0, len(kinds)))]
-            bad = os.path.join(tmp, f"bad{i}.h5")
-            shutil.copy(path, bad)
-            victim = None
-            with h5py.File(bad, "a") as f:
-                if kind == "delete_dataset":
-                    victim = sorted(file_ds)[int(r.integers(0, len(file_ds)))]
-                    del f[victim]
-                elif kind == "origin":
-                    f["Eulerian"]["Parameters"].attrs["origin"] = np.array(desc["origin"]) + 0.37
-                elif kind == "dx":
-                    f["Eulerian"]["Parameters"].attrs["dx"] = np.array(desc["dx"]) * 1.5
-                elif kind == "grid_size":
-                    f["Eulerian"]["Parameters"].attrs["grid_size"] = np.array(desc["grid"]) + 1
-                elif kind == "param_length":
-                    f["Eulerian"]["Parameters"].attrs["origin"] = np.zeros(5)
-            io3, _ = build_io(desc, fresh=True)
-            raised = None
-            try:
-                io3.load(bad)
-            except Exception as e:  # noqa: BLE001
-                raised = type(e).__name__
-            # model: same registry (fresh), file = real (malformed) file re-tagged
-            tg = Tagger()
-            L, _ = model_request(desc, tg)
-            fds, _, fpar = dump_h5(bad)
-            for pth, a in fds.items():
-                t = tg.tag(a)
-                L.append(f"file-ds {pth} {a.ndim} " + " ".join(str(s) for s in a.shape) + " " + " ".join(str(int(x)) for x in t.ravel()))
-            if fpar is None:
-                L.append("file-noparams")
-            else:
-                k = max(len(fpar[0]), len(fpar[1]), len(fpar[2]))
-                if len(fpar[0]) != len(fpar[1]) or len(fpar[1]) != len(fpar[2]):
-                    # lengths differ: send as-is padded — the model's `close` refuses different lengths
-                    L.append("file-params " + str(len(fpar[1])) + " " + " ".join(harness.fstr(v) for v in [9e9] * len(fpar[1]) + list(fpar[1]) + list(fpar[2])))
-                else:
-                    L.append(f"file-params {k} " + " ".join(harness.fstr(v) for v in list(fpar[0]) + list(fpar[1]) + list(fpar[2])))
-            mal_reqs.append("\n".join(L + ["load"]) + "\n")
-            mal_ctx.append((kind, victim, raised, variant, tg, fds, desc))
+            chosen = [kinds[0] if kinds[0] == "good_file" else kinds[int(r.integers(0, len(kinds)))]]
+            if desc.get("via"):
+                # the file of the convenience class must load into the base class (z-y-x origin) and a file whose origin is in
+                # the mirrored (x-y-z) order must be refused
+                chosen = ["good_file", "origin_reversed"]
+            for kind in chosen:
+                _malformed_case(kind, i, r, tmp, path, file_ds, desc, variant, mal_reqs, mal_ctx)
         mblocks = run_driver("".join(mal_reqs)) if mal_reqs else []
         for (kind, victim, raised, variant, tg, fds, desc), block in zip(mal_ctx, mblocks):
             model_err = block[0].startswith("error") if block else False
             res["malformed"][kind] = res["malformed"].get(kind, 0) + 1
             if kind == "good_file":
                 if raised is not None or model_err:
-                    res.update(ok=False, detail=f"well-formed file: implementation raised {raised}, model: {block[:1]}", failing_case={"kind": kind})
+                    fc = {"kind": kind, "variant": variant, "dim": desc["dim"], "dtype": desc["real_t"].__name__}
+                    if desc.get("via"):
+                        fc.update(written_by=desc["via"], lower_corner_xyz=desc["corner_xyz"], grid=list(desc["grid"]),
+                                  registry_origin_zyx=[float(v) for v in desc["origin"]])
+                    res.update(ok=False, detail=f"well-formed file ({variant}): implementation raised {raised}, model: {block[:1]}", failing_case=fc)
+                    if raised is not None:
+                        res["failing_input"] = {"oracle": "c17_file_of_convenience_class_refused" if desc.get("via") else "wellformed_refused", **fc, "raised": raised}
                     return res
                 # the model's loaded arrays carry the tags of the FILE datasets: translate to bytes and compare with the originals
                 orig = {}
@@ -332,7 +382,7 @@ def oracle(seed=0, tier="quick", aimed=None):
             r = impl.rng(seed + 5, "io-oracle", i)
             dim = 2 + i % 2
             real_t = [np.float64, np.float32][(i // 2) % 2]
-            variant = ["plain", "n_eq_dim", "empty_grid", "no_eul"][i % 4]
+            variant = VARIANTS[i % len(VARIANTS)]
             desc = make_registry(r, dim, real_t, variant)
             io, arrays = build_io(desc)
             before = {k: v.copy() for k, v in arrays.items()}
@@ -340,6 +390,8 @@ def oracle(seed=0, tier="quick", aimed=None):
             io.save(path, time=desc["time"])
             ds, ftime, fparams = dump_h5(path)
             info = {"dim": dim, "dtype": real_t.__name__, "variant": variant}
+            if desc.get("via"):
+                info.update(written_by=desc["via"], lower_corner_xyz=desc["corner_xyz"], grid=list(desc["grid"]))
             cases += 1
 
             def fail(what, **kw):
@@ -377,15 +429,24 @@ def oracle(seed=0, tier="quick", aimed=None):
                         d = ds.get(f"Lagrangian/{real_name}/Scalar/{fname}")
                         if d is None or d.tobytes() != farr.tobytes():
                             return fail("Lagrangian scalar field not stored under Scalar/", grid=real_name, field=fname)
+            if desc["eul"] and (fparams is None or not np.allclose(fparams[0], desc["origin"]) or not np.allclose(fparams[1], desc["dx"])
+                                or list(fparams[2]) != list(desc["grid"])):
+                return fail("Eulerian grid parameters in the file are not (origin, dx, grid_size) in z-y-x (array-axis) order",
+                            file_params=None if fparams is None else [np.asarray(a).tolist() for a in fparams],
+                            expected=[np.asarray(desc["origin"]).tolist(), np.asarray(desc["dx"]).tolist(), list(desc["grid"])])
             io2, arrays2 = build_io(desc, fresh=True)
-            t = io2.load(path)
+            try:
+                t = io2.load(path)
+            except Exception as e:  # noqa: BLE001
+                return fail("file written by save is refused by load of an identically described registry", error=repr(e)[:200])
             if t != desc["time"]:
                 return fail("time stamp not restored", saved=desc["time"], loaded=float(t))
             for k, a2 in arrays2.items():
                 if a2.tobytes() != before[k].tobytes():
                     return fail("array not restored bit-exactly", array=str(k), N=(a2.shape[-1] if k[0] != "eul" else None))
             # rejection
-            for kind in (["delete"] if ds else []) + (["origin", "dx", "grid_size"] if desc["eul"] else []):
+            rev = ["origin_reversed"] if desc["eul"] and not np.allclose(desc["origin"], np.array(desc["origin"])[::-1]) else []
+            for kind in (["delete"] if ds else []) + (["origin", "dx", "grid_size"] + rev if desc["eul"] else []):
                 bad = os.path.join(tmp, f"ob{i}{kind}.h5")
                 shutil.copy(path, bad)
                 with h5py.File(bad, "a") as f:
@@ -394,6 +455,8 @@ def oracle(seed=0, tier="quick", aimed=None):
                         del f[victim]
                     elif kind == "origin":
                         f["Eulerian"]["Parameters"].attrs["origin"] = np.array(desc["origin"]) - 0.21
+                    elif kind == "origin_reversed":
+                        f["Eulerian"]["Parameters"].attrs["origin"] = np.array(desc["origin"])[::-1].copy()
                     elif kind == "dx":
                         f["Eulerian"]["Parameters"].attrs["dx"] = np.array(desc["dx"]) * 0.5
                     else:
@@ -420,7 +483,7 @@ def oracle(seed=0, tier="quick", aimed=None):
             want = 0.5 * (rod.position_collection[:dim, 1:] + rod.position_collection[:dim, :-1])
             if g is None or g.shape != (5, dim) or not np.array_equal(g, want.T):
                 return {"ok": False, "cases": cases, "samples": samples, "failing_input": {"oracle": "c17_rod_io", "dim": dim}}
-        x = np.linspace(0.05, 0.95, 6); y = np.linspace(0.05, 0.55, 4)
+        x = np.linspace(0.05, 0.95, 6); y = np.linspace(-0.35, 0.15, 4)
         pos = np.flipud(np.array(np.meshgrid(y, x, indexing="ij")))
         w = np.arange(24.0).reshape(4, 6)
         eio = spu.EulerianFieldIO(position_field=pos, eulerian_fields_dict={"w": w})
@@ -428,7 +491,7 @@ def oracle(seed=0, tier="quick", aimed=None):
         eio.save(p, time=0.5)
         ds, t, pr = dump_h5(p)
         cases += 1
-        if ds["Eulerian/Scalar/w"].shape != (1, 4, 6) or not np.allclose(pr[0], [0.05, 0.05]) or not np.allclose(pr[1], [x[1] - x[0]] * 2) or list(pr[2]) != [4, 6]:
+        if ds["Eulerian/Scalar/w"].shape != (1, 4, 6) or not np.allclose(pr[0], [-0.35, 0.05]) or not np.allclose(pr[1], [x[1] - x[0]] * 2) or list(pr[2]) != [4, 6]:
             return {"ok": False, "cases": cases, "samples": samples, "failing_input": {"oracle": "c17_eulerian_field_io", "params": [a.tolist() for a in pr]}}
         return {"ok": True, "cases": cases, "failing_input": None, "samples": samples}
     finally:
